@@ -231,6 +231,10 @@ theorem apply1_eq_spec (d d' : Doc) (u : Up) (hwf : WFdoc d) (h : apply1 d u = .
       | some r3 =>
         obtain ⟨prod', m3⟩ := r3
         simp only [h3] at h
+        cases m3 with
+        | false => simp at h
+        | true =>
+        simp only [if_true] at h
         injection h with h
         rw [← h, secStep_eq_map _ _ u _ _ hdev h1, secStep_eq_map _ _ u _ _ hopt h2,
           secStep_eq_map _ _ u _ _ hprod h3]
@@ -618,6 +622,10 @@ theorem apply1_applied (d d' : Doc) (u : Up) (h : apply1 d u = .ok d') (hk : key
       | some r3 =>
         obtain ⟨prod', m3⟩ := r3
         simp only [h3] at h
+        cases m3 with
+        | false => simp at h
+        | true =>
+        simp only [if_true] at h
         injection h with h
         subst h
         unfold applied
@@ -648,6 +656,37 @@ theorem apply1_applied (d d' : Doc) (u : Up) (h : apply1 d u = .ok d') (hk : key
             rcases secStep_applied _ _ u _ _ h3 hprod with ⟨a, b, _⟩ | ⟨c, _⟩
             · exact Or.inr (Or.inr ⟨a, b⟩)
             · cases c
+
+/-- since fix 400b3071 a successful iteration HAS applied its update: an update no section holds the key of is an error -/
+theorem apply1_applied_always (d d' : Doc) (u : Up) (h : apply1 d u = .ok d') : applied u d d' := by
+  refine apply1_applied d d' u h ?_
+  unfold apply1 at h
+  simp only at h
+  cases h1 : secStep d.dev (escape (wkey u)) (origVer u) (newVer u) false with
+  | none => simp [h1] at h
+  | some r1 =>
+    obtain ⟨dev', m1⟩ := r1
+    simp only [h1] at h
+    cases h2 : secStep d.opt (escape (wkey u)) (origVer u) (newVer u) m1 with
+    | none => simp [h2] at h
+    | some r2 =>
+      obtain ⟨opt', m2⟩ := r2
+      simp only [h2] at h
+      cases h3 : secStep d.prod (escape (wkey u)) (origVer u) (newVer u) m2 with
+      | none => simp [h3] at h
+      | some r3 =>
+        obtain ⟨prod', m3⟩ := r3
+        simp only [h3] at h
+        cases m3 with
+        | false => simp at h
+        | true =>
+          unfold keyPresent
+          cases m1 with
+          | true => exact Or.inl (by rw [(secStep_false_matched _ _ u h1).1]; rfl)
+          | false =>
+            cases m2 with
+            | true => exact Or.inr (Or.inl (by rw [(secStep_false_matched _ _ u h2).1]; rfl))
+            | false => exact Or.inr (Or.inr (by rw [(secStep_false_matched _ _ u h3).1]; rfl))
 
 /-! ### Read loses no entry (fix 8304c0d6: the cascade keys a requirement by package and alias) -/
 
